@@ -114,22 +114,28 @@ pub type QuotaSpec = Option<(u64, Duration)>;
 /// The packet filter (`socket::filter::Filter`), built like `RecvHandler::spawn` builds it.
 pub struct PacketFilter(filter_src::Filter);
 
+/// Quotas of a single token go through the `*_one_every` builder functions, all others through
+/// `*_n_every` (the two spell the same quota).
+#[allow(clippy::too_many_arguments)]
 fn build_rate_limiter<B>(
     new: impl FnOnce() -> B,
     total: impl FnOnce(B, u64, Duration) -> B,
     node: impl FnOnce(B, u64, Duration) -> B,
     ip: impl FnOnce(B, u64, Duration) -> B,
+    total_one: impl FnOnce(B, Duration) -> B,
+    node_one: impl FnOnce(B, Duration) -> B,
+    ip_one: impl FnOnce(B, Duration) -> B,
     quotas: (QuotaSpec, QuotaSpec, QuotaSpec),
 ) -> B {
     let mut b = new();
     if let Some((n, p)) = quotas.0 {
-        b = total(b, n, p);
+        b = if n == 1 { total_one(b, p) } else { total(b, n, p) };
     }
     if let Some((n, p)) = quotas.1 {
-        b = node(b, n, p);
+        b = if n == 1 { node_one(b, p) } else { node(b, n, p) };
     }
     if let Some((n, p)) = quotas.2 {
-        b = ip(b, n, p);
+        b = if n == 1 { ip_one(b, p) } else { ip(b, n, p) };
     }
     b
 }
@@ -149,7 +155,16 @@ impl PacketFilter {
         let rate_limiter = match limiter {
             None => None,
             Some(q) => Some(
-                build_rate_limiter(B::new, B::total_n_every, B::node_n_every, B::ip_n_every, q)
+                build_rate_limiter(
+                    B::new,
+                    B::total_n_every,
+                    B::node_n_every,
+                    B::ip_n_every,
+                    B::total_one_every,
+                    B::node_one_every,
+                    B::ip_one_every,
+                    q,
+                )
                     .build()?,
             ),
         };
@@ -188,7 +203,17 @@ pub fn public_rate_limiter(
     quotas: (QuotaSpec, QuotaSpec, QuotaSpec),
 ) -> Result<crate::RateLimiter, &'static str> {
     use crate::RateLimiterBuilder as B;
-    build_rate_limiter(B::new, B::total_n_every, B::node_n_every, B::ip_n_every, quotas).build()
+    build_rate_limiter(
+        B::new,
+        B::total_n_every,
+        B::node_n_every,
+        B::ip_n_every,
+        B::total_one_every,
+        B::node_one_every,
+        B::ip_one_every,
+        quotas,
+    )
+    .build()
 }
 
 // ------------------------------------------------------------------------------------------
